@@ -1874,3 +1874,29 @@ func (ex *Exec) runInterleaved(caller *frame, label string, fa, fb value) {
 		il.inB = false
 	}
 }
+
+func init() {
+	m := models
+	m["internal/bytealg.CountString"] = func(ex *Exec, c *frame, fn *ssa.Function, a []value) value {
+		s := ex.constStr(a[0], "CountString input")
+		b := a[1].(*Term)
+		if !b.IsConst() {
+			panic(unsupported{"CountString with symbolic byte"})
+		}
+		return ex.tc.Int64(int64(strings.Count(s, string([]byte{byte(b.u)}))))
+	}
+	m["internal/bytealg.IndexString"] = func(ex *Exec, c *frame, fn *ssa.Function, a []value) value {
+		tc := ex.tc
+		return tc.IntToBV(tc.StrIndexOf(a[0].(*Term), a[1].(*Term), tc.IntConst(0)), 64)
+	}
+	m["internal/bytealg.LastIndexByteString"] = func(ex *Exec, c *frame, fn *ssa.Function, a []value) value {
+		b := a[1].(*Term)
+		if !b.IsConst() {
+			panic(unsupported{"LastIndexByteString with symbolic byte"})
+		}
+		return ex.lastIndex(a[0].(*Term), ex.tc.StrConst(string([]byte{byte(b.u)})))
+	}
+	m["strings.Count"] = func(ex *Exec, c *frame, fn *ssa.Function, a []value) value {
+		return ex.tc.Int64(int64(strings.Count(ex.constStr(a[0], "Count input"), ex.constStr(a[1], "Count sep"))))
+	}
+}
